@@ -10,7 +10,7 @@ def run(chk):
     th = build("plain")
     tha = build("asan")
     # 1. run time: boundary programs, instruction by instruction on the UBSan/ASan build; every stored word is bound
-    sources = boundary_programs()
+    sources = boundary_programs() + vm.random_boundary_programs(chk.seed, 300 if chk.thorough else 24)
     progs = vm.compile_progs(th, sources)
     execs = vm.record_traces(chk, tha, sources, 400, 1, chk.seed, style="single")
     acc = vm.validate_traces(chk, execs, progs, "sgv", ["TypeOK", "NoStuck", "WordsInRange", "FramesExact"])
